@@ -96,9 +96,11 @@ func (s *PersistentHybridIndex) compactSegments(segments []*segmentMetadata) err
 
 	// Add new segment
 	s.segmentManager.add(newSegment)
+	verifPoint("compact:registered")
 
 	// Remove old segments
 	for _, seg := range segments {
+		verifPoint("compact:before_delete", seg.id)
 		s.segmentManager.remove(seg.id)
 
 		// Delete old segment files
@@ -106,6 +108,7 @@ func (s *PersistentHybridIndex) compactSegments(segments []*segmentMetadata) err
 			// Log error but continue
 			fmt.Printf("failed to delete segment %d: %v\n", seg.id, err)
 		}
+		verifPoint("compact:deleted", seg.id)
 	}
 
 	s.mu.Unlock()
@@ -123,6 +126,7 @@ func (s *PersistentHybridIndex) writeIndexToSegment(
 	if err != nil {
 		return fmt.Errorf("failed to create hybrid file: %w", err)
 	}
+	verifPoint("compact:created:hybrid")
 	defer hybridFile.Close()
 
 	hybridGz := gzip.NewWriter(hybridFile)
@@ -137,6 +141,7 @@ func (s *PersistentHybridIndex) writeIndexToSegment(
 		if err != nil {
 			return fmt.Errorf("failed to create vector file: %w", err)
 		}
+		verifPoint("compact:created:vector")
 		defer vectorFile.Close()
 
 		vectorGz = gzip.NewWriter(vectorFile)
@@ -149,6 +154,7 @@ func (s *PersistentHybridIndex) writeIndexToSegment(
 		if err != nil {
 			return fmt.Errorf("failed to create text file: %w", err)
 		}
+		verifPoint("compact:created:text")
 		defer textFile.Close()
 
 		textGz = gzip.NewWriter(textFile)
@@ -161,6 +167,7 @@ func (s *PersistentHybridIndex) writeIndexToSegment(
 		if err != nil {
 			return fmt.Errorf("failed to create metadata file: %w", err)
 		}
+		verifPoint("compact:created:metadata")
 		defer metadataFile.Close()
 
 		metadataGz = gzip.NewWriter(metadataFile)
@@ -182,18 +189,23 @@ func (s *PersistentHybridIndex) writeIndexToSegment(
 		}
 		return fmt.Errorf("failed to write index: %w", err)
 	}
+	verifPoint("compact:written")
 
 	// Close gzip writers
 	if vectorGz != nil {
 		vectorGz.Close()
+		verifPoint("compact:closed:vector")
 	}
 	if textGz != nil {
 		textGz.Close()
+		verifPoint("compact:closed:text")
 	}
 	if metadataGz != nil {
 		metadataGz.Close()
+		verifPoint("compact:closed:metadata")
 	}
 	hybridGz.Close()
+	verifPoint("compact:closed:hybrid")
 
 	return nil
 }
